@@ -16,7 +16,8 @@ U = z3.RealVal(1) / z3.RealVal(2 ** 53)
 
 
 class Lowering:
-    def __init__(self, exact_i2f=True, prefix='d'):
+    def __init__(self, exact_i2f=True, prefix='d', exact=False):
+        self.exact = exact      # model R: no rounding at all (only for operands known to be exactly representable)
         self.side = []
         self.n = 0
         self.cache = {}
@@ -24,6 +25,8 @@ class Lowering:
         self.prefix = prefix
 
     def delta(self):
+        if self.exact:
+            return z3.RealVal(0)
         self.n += 1
         d = z3.Real(f'{self.prefix}!{self.n}')
         self.side += [d >= -U, d <= U]
@@ -98,8 +101,8 @@ def abs_r(x):
     return z3.If(x >= 0, x, -x)
 
 
-def lower_formula(f, exact_i2f=True):
-    lw = Lowering(exact_i2f)
+def lower_formula(f, exact_i2f=True, exact=False):
+    lw = Lowering(exact_i2f, exact=exact)
     g = lw.lower(f)
     return g, lw.side
 
